@@ -31,6 +31,9 @@ CLAIMED.update({
  "C15": ("The real runTracerouteMulti with the run function (package variable) replaced by a model that succeeds or fails per call, explored over completion orders of the concurrent runs/probes (bounded preemptions): success exactly when everything succeeded, with exactly the requested numbers of runs and RTT samples, none lost or duplicated (multiset equality), zeros for unanswered probes; on any failure no result and an error for which errors.Is holds for every individual failure; a failing public-IP fetcher changes neither case; no goroutine outlives the call.", "5 C15"),
  "C18": ("(a) sequences of cache gets on the real go-cache over the virtual clock: a stored success is served without re-query until expiry, errors are never stored; (b) the real EnrichWithReverseDns/GetReverseDnsForIPs with a model resolver answering per address, over completion orders of the concurrent lookups: names attached to each hop/destination are the resolver's answer for that same address, empty on failure, rest of the document unchanged, every lookup carries a deadline; (c) the real GetPublicIP/backoff.Retry/handleRequest over a scripted model HTTP client: providers in order, stop at the first valid address, 4xx and invalid bodies final for a provider, every HTTP call carries a deadline.", "5 C18"),
 })
+CLAIMED.update({
+ "C12": ("The filter programs exactly as the real getClassicBPFFilter returns them (generated TCP-tuple program with symbolic tuple; static SYN-ACK, ICMP, drop-all programs) are run by the real x/net/bpf VM on a symbolic 110-byte frame with symbolic captured length and proved equivalent to the reference predicate taken from the property text; and for each protocol the filter its entry point installs is proved to accept every frame whose payload the real matcher turns into a hop.", "5 C12"),
+})
 NA = {
  "C13": "needs replies from the real Linux kernel stack in network namespaces; a solver sees only what is encoded, and encoding the kernel would verify my model of it (DESIGN.md 5 C13)",
 }
